@@ -1,4 +1,7 @@
-// Package verifsync: sync shim + cooperative scheduler (prototype).
+// Package verifsync is NOT part of utreexo. It is a stand-in for package sync that the vmcx build
+// of /verif substitutes for the "sync" import of mappollard.go (go build -overlay). Its RWMutex
+// behaves exactly like sync.RWMutex until a cooperative scheduler is attached to it; then every
+// lock operation is a scheduling point of that scheduler, which runs one harness thread at a time.
 package verifsync
 
 import (
@@ -10,52 +13,51 @@ type Mutex = sync.Mutex
 type WaitGroup = sync.WaitGroup
 type Once = sync.Once
 
-type thread struct {
-	id      int
+type Thread struct {
+	ID      int
 	wake    chan struct{}
 	done    bool
 	blocked func() bool // nil = enabled
-	panicv  interface{}
+	Panic   interface{}
 }
 
+// Sched is a cooperative scheduler for one execution. Threads are goroutines that run only
+// while they hold the baton; Point hands it back.
 type Sched struct {
-	threads  []*thread
-	cur      *thread
-	choices  []int // prefix to replay
-	Trace    []int // choices taken
-	Enabled  [][]int
-	RunStill []bool
+	threads  []*Thread
+	cur      *Thread
+	choices  []int
+	Trace    []int   // choice taken at every step
+	Enabled  [][]int // enabled thread ids at every step, canonical order (running thread first)
+	RunStill []bool  // whether the previously running thread was still enabled at the step
+	Ran      []int   // id of the thread chosen at every step
 	yield    chan struct{}
 	Deadlock bool
-	Events   []string
+	Diverged string
+	Steps    int
+	MaxSteps int
+	Overrun  bool
 }
 
-var S *Sched // active scheduler (nil => real sync)
-
-type RWMutex struct {
-	real    sync.RWMutex
-	writer  *thread
-	readers map[*thread]int
-	pending int
-}
-
-func (s *Sched) Spawn(f func()) {
-	t := &thread{id: len(s.threads), wake: make(chan struct{})}
+func (s *Sched) Spawn(f func()) *Thread {
+	t := &Thread{ID: len(s.threads), wake: make(chan struct{})}
 	s.threads = append(s.threads, t)
 	go func() {
 		<-t.wake
 		defer func() {
 			if r := recover(); r != nil {
-				t.panicv = r
+				t.Panic = r
 			}
 			t.done = true
 			s.yield <- struct{}{}
 		}()
 		f()
 	}()
+	return t
 }
 
-// Point: called by running thread; hands control to scheduler, resumes when chosen again.
+// Point is called by the running thread: it gives the baton back and resumes when chosen again.
+// blocked (may be nil) tells the scheduler whether the thread can currently proceed.
 func (s *Sched) Point(blocked func() bool) {
 	t := s.cur
 	t.blocked = blocked
@@ -64,21 +66,27 @@ func (s *Sched) Point(blocked func() bool) {
 	t.blocked = nil
 }
 
+// Cur is the thread currently holding the baton.
+func (s *Sched) Cur() *Thread { return s.cur }
+
+// Step is the number of scheduling decisions taken so far (a logical clock for the harness).
+func (s *Sched) Step() int { return len(s.Trace) }
+
+// Run executes the threads to completion following prefix, then always choice 0.
 func (s *Sched) Run(prefix []int) {
 	s.yield = make(chan struct{})
 	s.choices = prefix
 	for step := 0; ; step++ {
 		var en []int
-		// canonical order: running thread first if still enabled
 		if s.cur != nil && !s.cur.done && (s.cur.blocked == nil || !s.cur.blocked()) {
-			en = append(en, s.cur.id)
+			en = append(en, s.cur.ID)
 		}
 		for _, t := range s.threads {
-			if t.done || (s.cur != nil && t.id == s.cur.id) {
+			if t.done || (s.cur != nil && t.ID == s.cur.ID) {
 				continue
 			}
 			if t.blocked == nil || !t.blocked() {
-				en = append(en, t.id)
+				en = append(en, t.ID)
 			}
 		}
 		if len(en) == 0 {
@@ -89,77 +97,98 @@ func (s *Sched) Run(prefix []int) {
 			}
 			return
 		}
+		if s.MaxSteps > 0 && step >= s.MaxSteps {
+			s.Overrun = true
+			return
+		}
 		c := 0
 		if step < len(s.choices) {
 			c = s.choices[step]
 			if c >= len(en) {
-				panic(fmt.Sprintf("replay divergence at step %d: choice %d of %d", step, c, len(en)))
+				s.Diverged = fmt.Sprintf("replay divergence at step %d: choice %d of %d enabled", step, c, len(en))
+				return
 			}
 		}
 		s.Trace = append(s.Trace, c)
 		s.Enabled = append(s.Enabled, en)
-		s.RunStill = append(s.RunStill, s.cur != nil && len(en) > 0 && en[0] == s.cur.id)
+		s.RunStill = append(s.RunStill, s.cur != nil && en[0] == s.cur.ID)
 		s.cur = s.threads[en[c]]
+		s.Ran = append(s.Ran, s.cur.ID)
 		s.cur.wake <- struct{}{}
 		<-s.yield
 	}
 }
 
-func (s *Sched) Cur() int { return s.cur.id }
-func (s *Sched) Panics() []interface{} {
-	var out []interface{}
-	for _, t := range s.threads {
-		if t.panicv != nil {
-			out = append(out, t.panicv)
-		}
-	}
-	return out
+func (s *Sched) Threads() []*Thread { return s.threads }
+
+// RWMutex mirrors sync.RWMutex, including writer preference: a waiting Lock blocks later RLocks,
+// so recursive read locking shows up as a deadlock.
+type RWMutex struct {
+	real    sync.RWMutex
+	s       *Sched
+	writer  *Thread
+	readers map[*Thread]int
+	pending int // writers waiting in Lock
 }
 
+// Attach makes the mutex a scheduling seam of s (nil detaches).
+func (m *RWMutex) Attach(s *Sched) { m.s = s }
+
 func (m *RWMutex) Lock() {
-	if S == nil {
+	if m.s == nil {
 		m.real.Lock()
 		return
 	}
-	t := S.cur
+	t := m.s.cur
 	m.pending++
-	S.Point(func() bool { return m.writer != nil || len(m.readers) > 0 })
+	m.s.Point(func() bool { return m.writer != nil || len(m.readers) > 0 })
 	m.pending--
 	m.writer = t
 }
+
 func (m *RWMutex) Unlock() {
-	if S == nil {
+	if m.s == nil {
 		m.real.Unlock()
 		return
 	}
+	if m.writer != m.s.cur {
+		panic("verifsync: Unlock of an RWMutex not write-locked by this thread")
+	}
 	m.writer = nil
-	S.Point(nil)
+	m.s.Point(nil)
 }
+
 func (m *RWMutex) RLock() {
-	if S == nil {
+	if m.s == nil {
 		m.real.RLock()
 		return
 	}
-	t := S.cur
-	S.Point(func() bool { return m.writer != nil || m.pending > 0 })
+	t := m.s.cur
+	m.s.Point(func() bool { return m.writer != nil || m.pending > 0 })
 	if m.readers == nil {
-		m.readers = map[*thread]int{}
+		m.readers = map[*Thread]int{}
 	}
 	m.readers[t]++
 }
+
 func (m *RWMutex) RUnlock() {
-	if S == nil {
+	if m.s == nil {
 		m.real.RUnlock()
 		return
 	}
-	t := S.cur
+	t := m.s.cur
+	if m.readers[t] == 0 {
+		panic("verifsync: RUnlock of an RWMutex not read-locked by this thread")
+	}
 	m.readers[t]--
 	if m.readers[t] == 0 {
 		delete(m.readers, t)
 	}
-	S.Point(nil)
+	m.s.Point(nil)
 }
 
-// HeldW/HeldR for lock discipline checks.
-func (m *RWMutex) HeldW() bool { return S != nil && m.writer == S.cur }
-func (m *RWMutex) HeldR() bool { return S != nil && (m.writer == S.cur || m.readers[S.cur] > 0) }
+// HeldW / HeldR: does the running thread hold the write lock / at least the read lock?
+func (m *RWMutex) HeldW() bool { return m.s != nil && m.writer == m.s.cur }
+func (m *RWMutex) HeldR() bool {
+	return m.s != nil && (m.writer == m.s.cur || m.readers[m.s.cur] > 0)
+}
